@@ -271,5 +271,34 @@ def run(E: Engine, rep: Report, tier: str) -> dict:
                   f"the overlap is squared under `{' and '.join(sh(x, 60) for x in lits if _ment20(x, 'isket', 'type', 'isoper')) or 'no ket test'}`: for two density matrices Tr(rho sigma) already is the overlap, squaring it changes every value strictly between 0 and 1", E.where(ov))
     if n_sq == 0:
         rep.excepted("GUARD", "QutipState.overlap|squared-modulus-only-for-two-kets", "no squared alternative found in the returned value (not decided)", E.where(ov))
+    # sampling: the probabilities handed to the multinomial draw are cut off far below one shot's weight -- probabilities()
+    # drops what is below the cutoff and renormalises, so with a cutoff of 1/num_shots every outcome expected less than once
+    # is never sampled and its weight moves to the frequent outcomes
+    smp = E.method("pulser_simulation.qutip_state.QutipState", "sample")
+    cuts = [dict(l.value[3]).get("cutoff") for l in S(E, smp, inline=False).calls("bitstring_probabilities")]
+    cuts = [c for c in cuts if c is not None]
+    if not cuts:
+        rep.excepted("GUARD", "QutipState.sample|cutoff-far-below-one-shot", "no cutoff passed to bitstring_probabilities: not decided", E.where(smp))
+    for c in cuts:
+        ns_inv = ("inv", ("name", "num_shots"))
+        fac = None
+        if c == ns_inv:
+            fac = 1.0
+        elif c[0] == "mul" and ns_inv in c[1:]:
+            fac = 1.0
+            for y in c[1:]:
+                if y == ns_inv:
+                    continue
+                if y[0] == "const" and isinstance(y[1], (int, float)):
+                    fac *= y[1]
+                elif y[0] == "inv" and y[1][0] == "const" and isinstance(y[1][1], (int, float)) and y[1][1] != 0:
+                    fac /= y[1][1]
+                else:
+                    fac = None
+                    break
+        if fac is None:
+            rep.excepted("GUARD", "QutipState.sample|cutoff-far-below-one-shot", f"cutoff `{sh(c, 60)}` is not of the form c / num_shots: not decided", E.where(smp))
+        else:
+            rep.check(fac <= 1e-2, "GUARD", "QutipState.sample|cutoff-far-below-one-shot", f"cutoff = {fac:g} / num_shots", f"QutipState.sample cuts the probabilities at {fac:g} / num_shots: outcomes expected less than {fac:g} times in the whole sample are removed and the rest renormalised, so rare bitstrings (p = 0.01 with 50 shots) are never drawn and the frequent ones are over-represented -- the sampled distribution no longer follows the state's probabilities", E.where(smp))
     rep.floor("GUARD", 16)
     return {"atoms": sorted(seen)}
